@@ -510,7 +510,7 @@ class LockEngine:
                 examined_cycles += 1
                 for w in wits:
                     viol.append(self._mk("order-inversion", w, cyc=back + [rc]))
-        # dedupe by key, apply exemptions
+        # group by key (construct), collecting every lock pair it contributes; apply exemptions
         out = {}
         exempted = []
         for v in viol:
@@ -518,16 +518,29 @@ class LockEngine:
             if ex:
                 exempted.append((v["key"], ex))
                 continue
-            out.setdefault(v["key"], v)
+            g = out.setdefault(v["key"], {"key": v["key"], "kinds": set(), "pairs": set(), "witness": v["witness"],
+                                          "cycles": [], "holders": set()})
+            g["kinds"].add(v["kind"])
+            pair = "%s->%s" % (v["witness"]["held"], v["witness"]["requested"])
+            if pair not in g["pairs"]:
+                g["pairs"].add(pair)
+                g["cycles"].append(" -> ".join(v["cycle"]))
+            g["holders"].add(v["witness"]["fn"])
+        res = []
+        for g in out.values():
+            g["kinds"] = sorted(g["kinds"])
+            g["pairs"] = sorted(g["pairs"])
+            g["holders"] = sorted(g["holders"])
+            res.append(g)
         info = {"order": order, "doc_names": names, "examined_cycles": examined_cycles,
-                "exempted": sorted(set(exempted))}
-        return list(out.values()), info
+                "exempted": sorted(set(exempted)), "writer_sites": dict(ws)}
+        return res, info
 
     def _mk(self, kind, w, cyc):
         if w.get("bound_at"):
             ch = w["chain"]
             tgt = ch[ch.index("invokes") + 1] if "invokes" in ch else w["via"]
-            key = "callback|%s|%s->%s|%s" % (w["bound_at"], w["held"], w["requested"], tgt)
+            key = "callback|%s|%s" % (w["bound_at"], tgt)
         else:
-            key = "%s|%s->%s|%s" % (w["fn"], w["held"], w["requested"], w["via"])
+            key = "%s|%s|%s" % (w["fn"], w["held"], w["via"])
         return {"kind": kind, "key": key, "witness": w, "cycle": cyc}
